@@ -150,6 +150,12 @@ func genUniverse(r *rand.Rand, p profile) Universe {
 	if enableCRD && chance(r, p.pCRD) {
 		es = append(es, Entry("CustomResourceDefinition", "", crdMeta.Name), Entry("Bar", invNS, "bar-a"))
 	}
+	for i := range es {
+		// spelling of the keep attribute: the two single spellings most of the time
+		if chance(r, 0.55) {
+			es[i].KeepVar = 3 + r.Intn(len(keepVariants)-3)
+		}
+	}
 	r.Shuffle(len(es), func(i, j int) { es[i], es[j] = es[j], es[i] })
 	if len(es) > 8 {
 		es = es[:8]
@@ -962,6 +968,15 @@ func (c *collector) corpus() {
 	unowned := Cluster{NextUID: 100, HasInv: true, Inv: []int{0, 1}, Objs: []CObj{
 		{ID: 0, UID: 1, Owner: ONone, Keep: true, Ver: 1}, CObj{ID: 1, UID: 2, Owner: OOther, Keep: true, Ver: 1}.Applied()}}
 	c.fixedHistory(u, unowned, []fixedRun{{opts: Opts{Destroy: true, Prune: true, Policy: PAdoptAll}}})
+	for _, kv := range []int{3, 4, 7, 9} {
+		ea, eb := Entry("ConfigMap", invNS, "cm-a"), Entry("ConfigMap", invNS, "cm-b")
+		ea.KeepVar, eb.KeepVar = kv, kv
+		uk := NewUniverse([]UEntry{ea, eb})
+		c.fixedHistory(uk, keepers, []fixedRun{{local: []LObj{{ID: 1, Ver: 1}}, opts: Opts{Prune: true, Policy: PMustMatch}},
+			{local: []LObj{{ID: 0, Ver: 2}, {ID: 1, Ver: 1, Keep: true}}, opts: Opts{Prune: true, Policy: PAdoptIfNoInventory}},
+			{local: []LObj{{ID: 0, Ver: 2}, {ID: 1, Ver: 1}}, opts: Opts{Prune: true, Policy: PAdoptIfNoInventory}}})
+		c.fixedHistory(uk, keepers, []fixedRun{{opts: Opts{Destroy: true, Prune: true, Policy: PMustMatch}}})
+	}
 	// 8. cancellation while a delete request is served; watcher failure while waiting
 	c.fixedHistory(u, two, []fixedRun{{opts: Opts{Destroy: true, Prune: true, Policy: PMustMatch}, cancel: CancelPt{Kind: CDuringReq, I: 1}}})
 	c.fixedHistory(u, two, []fixedRun{{local: []LObj{{ID: 0, Ver: 1}}, opts: Opts{Prune: true, Policy: PMustMatch}, cancel: CancelPt{Kind: CDuringReq, I: 1}}})
